@@ -321,6 +321,27 @@ func (in *interp) stmt(fr *frame, s gen.Stmt) ctl {
 			}
 		}
 	case *gen.Foreach:
+		if ml, ok := s.Src.(*gen.MapLit); ok {
+			vals := make([]int64, len(ml.Vals))
+			for i, ve := range ml.Vals {
+				v, c := in.expr(fr, ve)
+				if c.k != cNone {
+					return c
+				}
+				vals[i] = v.(int64)
+			}
+			for i, x := range vals {
+				in.step()
+				fr.vars[s.KeyVar] = ml.Keys[i]
+				fr.vars[s.ValVar] = x
+				in.cov["foreach.keyed.iter"]++
+				exit, _, prop := in.loopCtl(in.block(fr, s.Body))
+				if exit {
+					return prop
+				}
+			}
+			return ctl{}
+		}
 		v, c := in.expr(fr, s.Src)
 		if c.k != cNone {
 			return c
